@@ -43,7 +43,7 @@ type Runner struct {
 func relevant(tr []Event) []Event {
 	var out []Event
 	for _, e := range tr {
-		if e.Kind == "S" && (e.Key == "date" || e.Key == "seq" || e.Key == "dateseq") {
+		if e.Kind == "S" && (e.Key == "date" || e.Key == "dateseq") {
 			continue
 		}
 		if e.Kind == "A" && e.Key == "getstate" {
@@ -536,6 +536,12 @@ func Fixed() []Scenario {
 		{P0: 10, Q0: 0, C0: map[int64]int{5: 5, 8: 20}, Fresh: map[int64]bool{8: true}, Late: map[int64]bool{5: true, 8: true}, Log: []Entry{{ID: 1, Kind: KChMsg, Chan: 5, Pos: 6, Count: 1}, {ID: 2, Kind: KChMsg, Chan: 8, Pos: 21, Count: 1},
 			{ID: 3, Kind: KChMsg, Chan: 5, Pos: 7, Count: 1}, {ID: 4, Kind: KChMsg, Chan: 8, Pos: 22, Count: 1}},
 			Actions: []Action{{Op: "p", IDs: []int{1}}, {Op: "p", IDs: []int{2}}, {Op: "K", C: 5}, {Op: "K", C: 8}, {Op: "p", IDs: []int{3}}, {Op: "p", IDs: []int{4}}}},
+		// numbered containers (the seq box): 1 arrives; 2 is late, 3 parks behind the hole and is applied
+		// with it; 1 arrives again; 4 is lost, so 5..6 parks until the seq gap timer fetches the difference
+		{P0: 10, Q0: 0, C0: map[int64]int{5: 5}, Log: []Entry{{ID: 1, Kind: KMsg, Pos: 11, Count: 1}, {ID: 2, Kind: KMsg, Pos: 12, Count: 1}, {ID: 3, Kind: KChMsg, Chan: 5, Pos: 6, Count: 1},
+			{ID: 4, Kind: KMsg, Pos: 13, Count: 1}, {ID: 5, Kind: KPlain}, {ID: 6, Kind: KMsg, Pos: 14, Count: 1}, {ID: 7, Kind: KQts, Pos: 1, Count: 1}},
+			Actions: []Action{{Op: "ps", N: 1, B: 1, IDs: []int{1}}, {Op: "es", N: 2}, {Op: "ps", N: 3, B: 3, IDs: []int{3}}, {Op: "ps", N: 2, B: 2, IDs: []int{2}}, {Op: "ps", N: 1, B: 1, IDs: []int{1}},
+				{Op: "e", N: 4}, {Op: "es", N: 4}, {Op: "ps", N: 5, B: 6, IDs: []int{5, 6}}, {Op: "F"}, {Op: "ps", N: 7, B: 7, IDs: []int{7}}}},
 		// a gap filled by a late arrival; a duplicate; sliced recovery
 		{P0: 10, Q0: 0, C0: map[int64]int{}, Log: []Entry{{ID: 1, Kind: KMsg, Pos: 11, Count: 1}, {ID: 2, Kind: KOther, Pos: 13, Count: 2}, {ID: 3, Kind: KMsg, Pos: 14, Count: 1}, {ID: 4, Kind: KMsg, Pos: 15, Count: 1}},
 			Actions: []Action{{Op: "p", IDs: []int{2}}, {Op: "p", IDs: []int{1}}, {Op: "p", IDs: []int{1}}, {Op: "e", N: 2}, {Op: "sl", N: 1}, {Op: "T"}}},
